@@ -401,6 +401,13 @@ class Engine:
         self.stats['solver_s'] += time.time() - t
         return str(r), m
 
+    def _check2(self, cond):
+        """incremental check; an `unknown` is retried once non-incrementally (lets z3 pick nlsat)"""
+        r, m = self._check(cond)
+        if r == 'unknown':
+            r, m = self._fresh_check([cond], max(self.qtimeout * 2, 20000))
+        return r, m
+
     def _fresh_check(self, extra, timeout):
         """Non-incremental retry (lets z3 pick nlsat) for an `unknown`."""
         t = time.time()
@@ -458,7 +465,7 @@ class Engine:
             return d
         known = self._model_says(cond)
         if known is None:
-            rt, mt = self._check(cond)
+            rt, mt = self._check2(cond)
             if rt == 'sat':
                 known = True
                 self.model = mt
@@ -468,7 +475,7 @@ class Engine:
                 self._add(z3.Not(cond))
                 return d
             else:
-                rf, mf = self._check(z3.Not(cond))
+                rf, mf = self._check2(z3.Not(cond))
                 self.stats['unknown_branch'] += 1
                 if rf == 'sat':
                     # cannot decide cond; follow the side we know is feasible and
@@ -481,7 +488,7 @@ class Engine:
                 raise PathAbort('unknown branch feasibility')
         # `known` side is feasible (witnessed by self.model); ask about the other
         other = z3.Not(cond) if known else cond
-        ro, mo = self._check(other)
+        ro, mo = self._check2(other)
         if ro == 'unknown':
             self.stats['unknown_branch'] += 1
             self.unexplored = getattr(self, 'unexplored', 0) + 1
